@@ -27,10 +27,11 @@ RULE = (
     "pushes the token's own interned text and passes every comment of x.comments to the renderer. R5 comments reach the tree: every generated "
     "token type with a `comments` field is converted to a VerylToken by an impl that splits and keeps them, and COMMENT_REGEX (the splitter) "
     "matches whole every comment the scanner's CommentsTerm (veryl.par) accepts - compared exhaustively on all strings up to length 7 over the "
-    "five characters the two patterns distinguish."
+    "five characters the two patterns distinguish. R6 in Formatter::expression02 and Emitter::expression02 the loop over the prefix operators of "
+    "an operand writes a blank before the operator of every iteration but the first (two operators written back to back can lex as one token)."
 )
 
-CRATES = ["veryl_parser", "veryl_formatter"]
+CRATES = ["veryl_parser", "veryl_formatter", "veryl_emitter"]
 GEN = "veryl_parser::generated::veryl_grammar_trait::"
 TRAIT = "veryl_parser::veryl_walker::VerylWalker::"
 F = "veryl_formatter::formatter::Formatter::"
@@ -201,6 +202,28 @@ def run(world, tier, info, only=None):
     import rxagree
     import os
     rxagree.check(ck, "R5", w, "veryl_parser", "parser", os.environ.get("VERIF_REPO", "/repo"))
+    # ---------------- R6 prefix operators written back to back stay apart ------------------------------------------
+    for crate_impl, label in ((IMPL, "formatter"), ("<veryl_emitter::emitter::Emitter as veryl_parser::veryl_walker::VerylWalker>::", "emitter")):
+        q = crate_impl + "expression02"
+        if q not in w.fns:
+            if label == "formatter":
+                ck.missing("R6", q)
+            continue
+        gq = Fn(w.mir(q))
+        ok = False
+        for h, t, some, none, item in flow.loops_over(gq):
+            r, pth = flow.access_path(gq, t["args"][0], extra_transparent=walk.ADAPT)
+            if pth[-1:] != ("expression02_list",):
+                continue
+            body = gq.reach_from(some, avoid=[h])
+            ops = [bi for bi, tt in gq.calls(r"::expression02_op$") if bi in body]
+            sp = [bi for bi, tt in gq.calls(r"::space$") if bi in body]
+            # a separator is written before the operator of an iteration (it may be skipped for the first one only: a branch on the index)
+            ok = bool(ops) and bool(sp) and all(any(o in gq.reach_from(s_) for o in ops) for s_ in sp)
+        ck.ob("R6", "prefix-operators-separated:" + label, ok, site(w.fns[q]),
+              "between two prefix operators of one operand the %s writes a blank" % label if ok else
+              "the %s writes the prefix operators of an operand back to back: `& &a` comes out as `&&a` and `~ ^a` as `~^a`, other tokens than the "
+              "source had (the first no longer parses)" % label)
     # ---------------- R4 token sink ---------------------------------------------------------------------------
     s = w.fns[F + "process_token"]
     g = Fn(w.mir(F + "process_token"))
